@@ -8,7 +8,7 @@ SPEC = dict(
          "engines whose contents survive a restart or are wiped; every case ends with a deterministic heal phase. A case is non-trivial if "
          ">=1 entry was committed before a crash of a replica whose durable record held it, that replica restarted, AND a new leader term was "
          "observed after that restart. distinct_nontrivial sums the distinct non-trivial trace hashes per sub-run. Crash stages are drawn per "
-         "step, not enumerated.",
+         "step, not enumerated. A last sub-run (ready_order) drives the one function that keeps the premise of the property, raftNode.processReady, directly (lib/raftsim re-implements its step order): generated Ready values, recording WAL / transport, oracle = no send by a non-leader and no hand-over of still-unwritten committed entries to the apply loop before the save.",
     assumptions=[
         "a restart has exactly what reached the WAL-like durable record: synced records always (wal.Save syncs iff entries were written or term/vote changed; SaveSnapshot always), an unsynced tail may survive partly; restart replays it as ValidSnapshotEntries + LoadNewestAvailable + ReadAll do and fills a NEW storage object as replayWAL does",
         "the engine under a RocksStorage either keeps all its contents across the restart or is empty (production runs it with the engine WAL disabled and rebuilds from the file WAL)",
@@ -20,6 +20,7 @@ SPEC = dict(
         dict(name="rocks", pkg=_PKG, test="TestDurabilityRocks", checks=800, shards=5),
         dict(name="l3", pkg=_PKG, test="TestDurabilityL3", checks=2600, shards=3),
         dict(name="l1", pkg=_PKG, test="TestDurabilityL1", checks=1100, shards=2),
+        dict(name="ready_order", pkg=_PKG, test="TestReadyOrder", checks=1500, shards=1),
         dict(name="known", pkg=_PKG, test="TestKnown.*", checks=1, shards=1),
     ],
     thorough=[
@@ -27,6 +28,7 @@ SPEC = dict(
         dict(name="rocks", pkg=_PKG, test="TestDurabilityRocks", checks=5500, shards=6),
         dict(name="l3", pkg=_PKG, test="TestDurabilityL3", checks=22000, shards=3),
         dict(name="l1", pkg=_PKG, test="TestDurabilityL1", checks=10000, shards=2),
+        dict(name="ready_order", pkg=_PKG, test="TestReadyOrder", checks=15000, shards=4),
         dict(name="known", pkg=_PKG, test="TestKnown.*", checks=1, shards=1),
     ],
 )
@@ -34,7 +36,7 @@ SPEC = dict(
 TEXT = dict(
     engine="raftsim",
     design_ref="DESIGN.md §3-A, §4 C03",
-    technique="property-based testing (rapid) of crash-heavy generated schedules over real raft.Node replicas; invariant (leader completeness against the set of handed-out entries) + differential (storage object vs shadow log built from the durable record / the Ready stream) + bounded convergence after a deterministic heal phase",
+    technique="property-based testing (rapid) of crash-heavy generated schedules over real raft.Node replicas; invariant (leader completeness against the set of handed-out entries) + differential (storage object vs shadow log built from the durable record / the Ready stream) + bounded convergence after a deterministic heal phase; plus generated Ready values through the REAL raftNode.processReady (recording WAL and transport) checked for its two ordering rules: nothing is sent by a non-leader, and nothing the Ready still has to write is handed to the apply loop, before the WAL save",
     level_text="Generated-schedule exploration with drawn crash points (not enumerated). committed := handed out by anyone. Checked: (1) every replica first observed as leader of term t holds every entry handed out by a replica whose term was below t (snapshot may cover a prefix); (2) after every restart the new storage object answers FirstIndex/LastIndex/Term/Entries/InitialState/Snapshot exactly as the replayed durable record says, and a RocksStorage matches the shadow log after every completed step (cached first/last index, overwrite-and-delete-tail); (3) after the heal phase every live member of the final configuration was handed every committed entry unchanged; a cluster that is stuck is a violation, one that is merely slow is counted inconclusive. A replica that cannot restart from its own durable record is a violation. Held on everything explored outside the excluded triggers; no absence claim.",
     level_note="Three genuine violations are recorded as known findings: C03-single-voter-apply-before-wal (committed entry lost and replaced in a one-voter group), C03-restarted-learner-refuses-snapshot (a restarted learner never catches up once the leader compacted), C03-rocksstorage-stale-tail-after-snapshot (RocksStorage.ApplySnapshot keeps the log above the snapshot). Their triggers are excluded by construction. Not modelled: real files/fsync (C05), engine-level partial loss of a RocksStorage engine between 'intact' and 'empty', optimized_fsync mode.",
 )
